@@ -411,6 +411,31 @@ class _ExprInliner(ast.NodeTransformer):
         return new
 
 
+    def visit_Attribute(self, node):
+        """`self._p` where `_p` is a private read-only property whose body is a single `return <expression>`: that expression"""
+        self.generic_visit(node)
+        cls = getattr(self.caller, "_cls", None)
+        if not (isinstance(node.ctx, ast.Load) and isinstance(node.value, ast.Name) and node.value.id == "self" and cls is not None and _is_private(node.attr)):
+            return node
+        target = cls.find_method(node.attr)
+        if target is None or target is self.caller or _decorators(target) != {"property"}:
+            return node
+        params = [a.arg for a in target.args.posonlyargs + target.args.args]
+        body = [b for b in target.body if not isinstance(b, (ast.Pass, ast.Import, ast.ImportFrom))]
+        if len(params) != 1 or len(body) != 1 or not isinstance(body[0], ast.Return) or body[0].value is None:
+            return node
+        if any(isinstance(n, (ast.Lambda, ast.Yield, ast.YieldFrom, ast.Await, ast.NamedExpr)) for n in ast.walk(body[0].value)):
+            return node
+        new = _Subst({params[0]: node.value}, {}).visit(clone(body[0].value))
+        for n in ast.walk(new):
+            n.lineno = getattr(node, "lineno", 0)
+            n.col_offset = getattr(node, "col_offset", 0)
+            n.end_lineno = n.lineno
+            n.end_col_offset = 0
+        self.log.append((self.caller.name, target.name, int(getattr(node, "lineno", 0))))
+        return new
+
+
 def inline_private_helpers(repo, passes=3):
     inl = Inliner(repo)
     # pure formula helpers first, at any call position
